@@ -69,7 +69,7 @@ def st_rop(draw, extra=()):
                  for _ in range(draw(st.integers(1, 3)))]
         return {'o': 'ctx', 'ops': inner, 'via': draw(st.sampled_from(['open_arrays', 'iter_arrays']))}
     if o == 'meta':
-        return {'o': 'meta', 'a': draw(st.sampled_from(['set', 'set', 'del', 'clear'])), 'k': draw(st.sampled_from(['a', 'b']))}
+        return {'o': 'meta', 'a': draw(st.sampled_from(['set', 'set', 'del', 'clear', 'refused'])), 'k': draw(st.sampled_from(['a', 'b']))}
     if o == 'overwrite':
         return {'o': 'overwrite', 'start': draw(st_rstart())}
     if o == 'copy':
@@ -80,7 +80,7 @@ def st_rop(draw, extra=()):
     if o == 'fillmax':
         return {'o': 'fillmax', 'seed': draw(st.integers(0, 2 ** 31))}
     if o == 'overfill':
-        return {'o': 'overfill', 'style': draw(st.sampled_from(['append', 'iter', 'iter-gen', 'iter-many'])), 'over': draw(st.sampled_from([1, 1, 2, 9, 130, 300])),
+        return {'o': 'overfill', 'style': draw(st.sampled_from(['append', 'iter', 'iter-gen', 'iter-many', 'iter-ndarray'])), 'over': draw(st.sampled_from([1, 1, 2, 9, 130, 300])),
                 'seed': draw(st.integers(0, 2 ** 31))}
     if o == 'iterappend-x':
         return {'o': 'iterappend-x', 'style': draw(st.sampled_from(['from-self', 'from-self', 'gen-sets-mode', 'readcode-inside', 'manyitems', 'manyitems'])),
@@ -572,6 +572,12 @@ class RaggedRun:
                 new = [mk(room + over, 1)]
                 call = lambda: ra.append(new[0])
                 nfit = 0
+            elif style == 'iter-ndarray':     # the iterable is ONE numeric ndarray whose rows are the subarrays (3 values each)
+                k = (room + over + 2) // 3 + 1
+                block = mk(3 * k, 1).reshape((k, 3) + atom)
+                new = [block[i] for i in range(k)]
+                nfit = room // 3
+                call = lambda: ra.iterappend(block)
             else:
                 if style == 'iter-many':      # many short subarrays, the limit is crossed somewhere in the middle
                     k = room + over
@@ -808,6 +814,11 @@ class RaggedRun:
             if self.mode == 'r':
                 return True
             k, act = op['k'], op['a']
+            if act == 'refused':
+                # an update that has to be refused (a value JSON cannot hold): metadata, metadata.json and README stay as they are
+                self.out.cls('meta-update-refused', 'rejected-call')
+                bad = {1, 2} if k == 'a' else object()
+                return self.expect_reject('meta:refused', (lambda: ra.metadata.update({'fine': 1, k: bad})) if k == 'a' else (lambda: ra.metadata.__setitem__(k, bad)))
             if act == 'set':
                 val = {'v': [1, 2, 3], 's': 'é'} if k == 'a' else 7.5
                 if not self.expect_ok('meta:set', lambda: ra.metadata.__setitem__(k, val)):
